@@ -3,12 +3,13 @@
 Contract (spec/lint/LintContract.tla; every rule quotes its sentence of the LintMiddleware docstring, the module
 docstring, PEP 3333 or the HTTP RFC): for one request through the monitor
   Missing      a documented rule is broken in a step (environ check, start_response, write, yield, wsgi.input / wsgi.errors
-               call, return, close, collection)  =>  a warning of the documented class during that step (or, for arguments
-               the monitor cannot digest, an exception);
-  FalseAlarm   a warning during a step  =>  some rule is broken in that step;
+               call, return, close, collection)  =>  a warning of the documented class in that step or later in the request
+               (or, for arguments the monitor cannot digest, an exception);
+  FalseAlarm   a warning during a step  =>  some rule was broken in that step or earlier in the request;
   Transparency every start_response / write / stream call, every yielded item, StopIteration, exception and close() crosses
                the monitor unchanged, in order, exactly once.
-Anything else (warning texts, tags, order, exception classes of the monitor itself, undocumented checks) is drift.
+Anything else (warning texts, tags, order, the exact step of a warning, exception classes of the monitor itself,
+undocumented checks) is drift.
 
 1. TLC model-checks the implementation-shaped monitor model (LintModel.tla: headers_set, sum(chunks), closed; one step per
    application action / server call) against the contract in every reachable state of every behaviour of a bounded case
@@ -68,21 +69,40 @@ FIXTURES = [
 ]
 
 
+def _all_w(o):
+    return ([o["call"]["w"], o["ret"]["w"], o["gc"]["w"]] + [a["w"] for a in o["acts"]] + [n["w"] for n in o["nexts"]]
+            + [x["w"] for x in o["closes"]])
+
+
 def _corrupt(lines):
-    """judge self-test: copies of the two recorded fixture requests with ONE recorded field falsified; each must be rejected"""
+    """judge self-test: copies of the two recorded fixture requests with ONE recorded fact falsified; each must be rejected
+    (a falsification that does not apply to what was recorded -- the tree under test misbehaves already -- is skipped)"""
     a, b = lines[0], lines[1]
     out = {}
 
     def bad(ln, name, clause, fn):
         x = copy.deepcopy(ln)
-        fn(x["obs"])
-        out[name] = (x, clause)
+        try:
+            if fn(x["obs"]) is not False and x["obs"] != ln["obs"]:
+                out[name] = (x, clause)
+        except (IndexError, KeyError):
+            pass
+
+    def reclass(o):
+        for ws in _all_w(o):
+            for w in ws:
+                if w["c"] == "HTTPWarning":
+                    w["c"] = "WSGIWarning"
+
+    def drop_http(o):
+        for ws in _all_w(o):
+            ws[:] = [w for w in ws if w["c"] != "HTTPWarning"]
 
     bad(a, "sr_dropped", "Transparency:SR:dropped", lambda o: o["acts"][0].update(fwd=[]))
     bad(a, "item_changed", "Transparency:NEXT:item", lambda o: o["nexts"][0]["item"].update(v=o["nexts"][0]["item"]["v"][:-1]))
     bad(a, "close_swallowed", "Transparency:CLOSE:swallowed", lambda o: o["closes"][0].update(appcloses=0))
-    bad(a, "etag_warning_class", "Missing:SR:ETagUnquoted", lambda o: o["acts"][0]["w"][0].update(c="WSGIWarning"))
-    bad(a, "etag_warning_lost", "Missing:SR:ETagUnquoted", lambda o: o["acts"][0].update(w=[]))
+    bad(a, "etag_warning_class", "Missing:SR:ETagUnquoted", reclass)
+    bad(a, "etag_warning_lost", "Missing:SR:ETagUnquoted", drop_http)
     bad(b, "gc_warning_lost", "Missing:GC:Unclosed", lambda o: o["gc"].update(w=[]))
     bad(b, "warning_on_read_n", "FalseAlarm:IN:read", lambda o: o["acts"][0].update(w=[{"c": "WSGIWarning", "g": "ReadNoSize"}]))
     bad(b, "exception_swallowed", "Transparency:NEXT:outcome", lambda o: o["nexts"][1].update(r="item"))
@@ -112,7 +132,7 @@ def judge_cases(ctx: Ctx, cases, kind, selftest=False):
                 got.setdefault(r["t"] - len(lines), set()).add(r["clause"])
         res = {what: (clause in got.get(k, set())) for k, (what, _, clause) in enumerate(extra)}
         ctx.notes["corrupted_lines_rejected"] = res
-        if len(extra) < 5 or not all(res.values()):
+        if len(extra) < 4 or not all(res.values()):
             raise tlc.MachineryError(f"judge self-test: {len(extra)} corrupted lines, rejected as expected: {res}")
         ctx.traces -= len(extra)
     tags = ctx.notes.setdefault("warning_tags_seen", {})
